@@ -170,6 +170,19 @@ def run(ctx):
              "enqueue_task awaits the task (or does not create a detached task): the connection handler, and with it the client, would own the task's lifetime",
              enq.where)
     owners = {f"{LOCAL}:Scheduler.enqueue_task", f"{LOCAL}:Scheduler.cancel_task", f"{LOCAL}:Scheduler.try_handle_task"}
+    # private helpers that are called only by owners are owners too (extract-method)
+    sched_methods = {m.name: m for m in info["cls"].methods.values()}
+    changed = True
+    while changed:
+        changed = False
+        for name, m in sched_methods.items():
+            if m.key in owners or not name.startswith("_") or name.startswith("__"):
+                continue
+            callers = {f.key for f in idx.functions.values() if f.module.name == LOCAL for c in _calls(f.node)
+                       if isinstance(c.func, ast.Attribute) and c.func.attr == name and f.key != m.key}
+            if callers and callers <= owners:
+                owners.add(m.key)
+                changed = True
     n_writes = 0
     for f in idx.functions.values():
         for n in walk_no_nested(f.node):
